@@ -267,8 +267,13 @@ SUBS = [
     Sub("member-edit", judge_edit, strategy=edit_st, quick=2500, thorough=60000),
 ]
 
+# coverage-guided twins (fuzz/fuzz_hyp.py): atheris mutates the bytes Hypothesis decodes into cases of the same strategy
+SUBS += [__import__("lib.harness", fromlist=["x"]).cov_sub('C03', s_) for s_ in list(SUBS) if s_.name in ('pairs',)]
+
 MANIFEST = {
     "technique": "property-based testing with a derived-pair generator: Ace.shadow_of answers checked against exact packet-set inclusion computed by an independent reference (refsem), plus a metamorphic monotonicity relation over skip options",
     "text": "exploration: over thousands (quick) / 200 000 (thorough) generated ordered pairs x 5 skip lists, every True answer was confirmed as same action + exact inclusion by interval and bit algebra (no packet sampling), and no answer turned from False to True when a skip option was added; query / in-place member edit / query histories must answer for the current members and agree with freshly built objects",
     "note": "trusted: lib/refsem.py inclusion algebra and its flag/port conventions; bounded to k<=4 non-contiguous bits and <=4 group members; a ValueError from shadow_of is counted as 'no answer'",
 }
+MANIFEST["engine"] += " + atheris (coverage-guided twins of the Hypothesis sub-checks, fuzz/fuzz_hyp.py: 2 jobs x 8 s quick, 8 jobs x 200 s thorough)"
+MANIFEST["technique"] += "; plus coverage-guided fuzzing of the same strategies (atheris/libFuzzer mutates the byte stream Hypothesis decodes into cases, the same oracle runs inside the target, findings are re-judged outside it)"
